@@ -469,6 +469,10 @@ func (g *Gen) typeInv(st *State, v T, t types.Type) string {
 			return and("(<= 0 "+v.S+")", "(<= "+v.S+" 65535)")
 		case types.Uint, types.Uint32, types.Uint64, types.Uintptr:
 			return "(<= 0 " + v.S + ")"
+		case types.Int, types.Int64:
+			return and("(<= (- 9223372036854775808) "+v.S+")", "(<= "+v.S+" 9223372036854775807)")
+		case types.Int32:
+			return and("(<= (- 2147483648) "+v.S+")", "(<= "+v.S+" 2147483647)")
 		case types.String:
 			return "(not (isnil " + v.S + "))"
 		}
